@@ -20,10 +20,11 @@ Import ListNotations.
 
 Definition sep4 : str := crlf ++ crlf.
 
-(** BODY[HEADER], RFC822.HEADER:  msg[:headerEnd+2], the whole msg if -1 *)
+(** BODY[HEADER], RFC822.HEADER:  msg[:headerEnd+4] (the header section with
+    the blank line that ends it), the whole msg if -1 *)
 Definition header_of (msg : str) : str :=
   match index msg sep4 with
-  | Some i => firstn (i + 2) msg
+  | Some i => firstn (i + 4) msg
   | None => msg
   end.
 
@@ -37,13 +38,16 @@ Definition text_of (msg : str) : str :=
 (** RFC822.SIZE: len(msg) *)
 Definition size_of (msg : str) : nat := length msg.
 
-(** partial <o.n> as coded for numeric sections and for BODY[TEXT]:
-      if o < len(p) { e := o+n; if e > len(p) { e = len(p) }; p = p[o:e] } else { p = "" } *)
+(** partial <o.n>: slicePartial(data, start, length) (fetch.go, since 2d014e0;
+    both slicing sites call it).  start and length are unsigned here: a range
+    with a minus sign is answered BAD before any message is processed.
+      if start >= len(data) { return "" }
+      if length > len(data)-start { length = len(data)-start }
+      return data[start : start+length] *)
 Definition partial_cut (p : str) (o n : nat) : str :=
-  if o <? length p
-  then let e := if length p <? o + n then length p else o + n in
-       firstn (e - o) (skipn o p)
-  else [].
+  if length p <=? o then []
+  else let n' := if length p - o <? n then length p - o else n in
+       firstn n' (skipn o p).
 
 (** ---- the part table ---- *)
 
@@ -130,21 +134,20 @@ Definition section_of (rows : list row) (p : list nat) : sec_result :=
 
 Inductive section := SecAll | SecHeader | SecText | SecPath (p : list nat).
 
-(** payload returned for  BODY[sec]<o.n>  ([part] = None: no partial).
-    BODY[] and BODY[HEADER] never look at the partial. *)
+(** payload returned for  BODY[sec]<o.n>  ([part] = None: no partial); every
+    section applies slicePartial to its payload *)
+Definition cut (x : str) (part : option (nat * nat)) : str :=
+  match part with None => x | Some (o, n) => partial_cut x o n end.
+
 Definition fetch_item (raw : str) (rows : list row) (s : section) (part : option (nat * nat)) : option str :=
   match s with
-  | SecAll => Some raw
-  | SecHeader => Some (header_of raw)
-  | SecText =>
-      match part with
-      | None => Some (text_of raw)
-      | Some (o, n) => Some (partial_cut (text_of raw) o n)
-      end
+  | SecAll => Some (cut raw part)
+  | SecHeader => Some (cut (header_of raw) part)
+  | SecText => Some (cut (text_of raw) part)
   | SecPath p =>
       match section_of rows p with
       | SNil => Some []
-      | SLeaf c => match part with None => Some c | Some (o, n) => Some (partial_cut c o n) end
+      | SLeaf c => Some (cut c part)
       | SContainer _ => None
       end
   end.
@@ -234,5 +237,14 @@ Definition announced_leaf (strip : str -> str) (r : row) : str * str * nat :=
 
 (** a message that is not multipart (BuildBodyStructure, single-part branch):
     the size is that of rawMsg[headerEnd+4:] *)
+Definition single_body (raw : str) : str :=
+  match index raw sep4 with
+  | Some i => skipn (i + 4) raw
+  | None => match index raw [LF; LF] with
+            | Some i => skipn (i + 2) raw      (* bare LF: separator of 2 (3b9f4c2) *)
+            | None => []
+            end
+  end.
+
 Definition announced_single (raw : str) (r : row) : str * str * nat :=
-  (to_upper (rct r), announced_enc (renc r), length (text_of raw)).
+  (to_upper (rct r), announced_enc (renc r), length (single_body raw)).
